@@ -2,7 +2,7 @@
    EXT id nDiv cone k n1..nk        -> EXT id nverts tris...      (side triangles only)
    REV id nDiv full npoly (n f1..fn)* -> REV id nverts tris... | st ... | en ...
    SEG id explicit m arg            -> SEG id circ sphere_n cylinder_n
-   CLOSED id nv a b c ...           -> CLOSED id 0/1 (closed 2-manifold and indices in range)
+   CLOSED id nv a b c ...           -> CLOSED id c m  (c: boundary chain 0 and indices in range; m: each directed edge exactly once)
    WIND id ntri npts <9*ntri hex ints> <3*npts hex ints> -> WIND id vol6 w1 w2 ...
    ROT id cx sx cy sy cz sz x y z   -> ROT id x' y' z'  *)
 open C17_model
@@ -87,8 +87,8 @@ let () =
           let nv = z_of_int (ti 2) in
           let n = (Array.length toks - 3) / 3 in
           let ts = List.init n (fun i -> ((z_of_int (ti (3 + 3 * i)), z_of_int (ti (4 + 3 * i))), z_of_int (ti (5 + 3 * i)))) in
-          let ok = manifold_closedb ts && List.for_all (tri_in_rangeb nv) ts in
-          Printf.printf "CLOSED %s %d\n" id (if ok then 1 else 0)
+          let ok = chain_closedb ts && List.for_all (tri_in_rangeb nv) ts in
+          Printf.printf "CLOSED %s %d %d\n" id (if ok then 1 else 0) (if manifold_closedb ts then 1 else 0)
         | "WIND" ->
           let nt = ti 2 and np = ti 3 in
           let z k = z_of_hex toks.(k) in
